@@ -24,7 +24,10 @@ Definition expected_read : list (string * string) :=
     ("src/opts.rs", "fs::read_dir") ].                          (* Opts::new: does ./contracts exist *)
 
 Definition expected_process : list (string * string) :=
-  [ ("src/opts.rs", "process::exit") ].                         (* Opts::new: exit(1) *)
+  [ ("src/main.rs", "thread::Builder");                         (* main: the analysis runs on one thread with a large stack, *)
+    ("src/main.rs", "thread spawn");                            (*   spawned once and joined before the process ends *)
+    ("src/main.rs", "process::exit");                           (* main: exit(101) when that thread panicked *)
+    ("src/opts.rs", "process::exit") ].                         (* Opts::new: exit(1) *)
 
 Lemma effects_match_model_lemma :
   effects_write = expected_write /\ effects_read = expected_read /\ effects_process = expected_process.
@@ -39,5 +42,5 @@ Definition count (api : string) (l : list (string * string)) : nat :=
 Lemma effect_counts_lemma :
   count "fs::read_dir" effects = 4%nat /\ count "fs::read_to_string" effects = 4%nat /\
   count ".is_dir()" effects = 3%nat /\ count "fs::write" effects = 1%nat /\
-  count "process::exit" effects = 1%nat /\ List.length effects = 13%nat.
+  count "process::exit" effects = 2%nat /\ count "thread spawn" effects = 1%nat /\ List.length effects = 16%nat.
 Proof. repeat split; vm_compute; reflexivity. Qed.
